@@ -63,10 +63,10 @@ func (c *DBCase) rows() (rows [][]driver.Value, exp []expStream) {
 		for j := 0; j < c.N; j++ {
 			i := j % len(c.Series)
 			ts++
-			msg := fmt.Sprintf("plain line %d", j) // no key=value pair: logfmt extracts nothing
+			msg := fmt.Sprintf("plain line %d", j)
 			rows = append(rows, []driver.Value{c.Series[i].FP, lbl(c.Series[i]), msg, ts})
 			es[i].TS = append(es[i].TS, ts)
-			es[i].Msg = append(es[i].Msg, msg)
+			es[i].Msg = append(es[i].Msg, "<"+c.Series[i].Labels["n"]+">") // what `| line_format "<{{.n}}>"` makes of every line
 		}
 		for _, e := range es {
 			if len(e.TS) > 0 {
@@ -245,7 +245,7 @@ func dbCases(thorough bool) []*DBCase {
 	}
 	for _, n := range ns {
 		for _, k := range []int{1, 2, 3} {
-			out = append(out, &DBCase{Kind: "streams_internal", Query: `{a="b"} | logfmt`, Limit: 20000, Series: sd(5, 9, 11)[:k], N: n})
+			out = append(out, &DBCase{Kind: "streams_internal", Query: `{a="b"} | line_format "<{{.n}}>"`, Limit: 20000, Series: sd(5, 9, 11)[:k], N: n})
 		}
 	}
 	// metric pipeline (ZeroEaterPlanner + FixPeriodPlanner in front of the matrix encoder)
